@@ -608,6 +608,24 @@ def gen_session(seed, idx, extended=False):
                 new_ops.append(op)
         ops = new_ops
         return dict(texts=texts, ops=ops, target=target, tags=sorted(tags))
+    if extended and rnd.random() < 0.08 and target.get('via') != 'main':
+        # a name the package does not know (another spelling of the target's rule or arithmetic) is first asked for --
+        # and refused -- and then stands as a bare word in the [droop ...] line of the target's file: whatever the
+        # refusal left behind in the package's name tables decides how that word is read
+        base_name = rnd.choice([topts['rule']] + ([topts['arithmetic']] if isinstance(topts.get('arithmetic'), str) else []))
+        w = rnd.choice((base_name.capitalize(), base_name.upper(), base_name.replace('-', '_'), base_name + 's'))
+        if w != base_name:
+            key = 'rule' if base_name == topts['rule'] else 'arithmetic'
+            bad = dict(topts)
+            bad[key] = w
+            ops.insert(rnd.randint(0, len(ops)), dict(op='construct-fails', profile=tprof, share=False, options=bad))
+            e2 = dict(elections[tprof])
+            rest_ = {k: v for k, v in topts.items() if k != key}
+            e2['droop'] = [w] + gen.droop_tokens(rest_, rnd)
+            texts.append(gen.render_blt(e2, rnd))
+            target.update(profile=len(texts) - 1, share=False, call='none')
+            tags.add('refused_name_then_bare_word_in_file')
+            return dict(texts=texts, ops=ops, target=target, tags=sorted(tags))
     # some elections carry their options in the ballot file ([droop ...]) and are built as Election(profile) or
     # Election(profile, {}) -- the call shape of a program that leaves configuration to the file
     for op in ops + [target]:
